@@ -83,6 +83,30 @@ def s10(chk: Check, proj: Project, w) -> None:
                f"the clean-up iterates `{short(lp.iter)}` (keyed by `{pid}`)" if ok else
                f"the clean-up iterates `{short(lp.iter)}`, which is not restricted to `{pid}`: an error that leaves one provider (and is caught by the application) unregisters every waiting component of every provider; their data is deleted and a later inject() raises KeyError")
 
+    # the end-of-tree clean-up releases only what THIS tree registered
+    import builtins as _b
+
+    cm_, cf_ = proj.func("perfutil.component", "component_post_render")
+    chk.analysed(fkey(cm_, cf_))
+    locs = set()
+    for fn_ in [x for x in ast.walk(cf_) if isinstance(x, (ast.FunctionDef, ast.Lambda))]:
+        a_ = fn_.args
+        locs |= {z.arg for z in a_.posonlyargs + a_.args + a_.kwonlyargs} | ({a_.vararg.arg} if a_.vararg else set()) | ({a_.kwarg.arg} if a_.kwarg else set())
+    for x in ast.walk(cf_):
+        if isinstance(x, ast.Name) and isinstance(x.ctx, ast.Store):
+            locs.add(x.id)
+    rel_ = [c for c in ast.walk(cf_) if isinstance(c, ast.Call) and last_attr(c.func) == "unregister_provide_reference"]
+    chk.floor("S10", len(rel_), 1)
+    for c in rel_:
+        srcs = list(c.args)
+        for a in ancestors(c):
+            if isinstance(a, (ast.For, ast.comprehension)) and any(isinstance(y, ast.Name) and y.id in {z.id for z in ast.walk(a.target) if isinstance(z, ast.Name)} for s_ in c.args for y in ast.walk(s_)):
+                srcs.append(a.iter)
+        foreign = sorted({y.id for s_ in srcs for y in ast.walk(s_) if isinstance(y, ast.Name) and y.id not in locs and not hasattr(_b, y.id)})
+        chk.ob("S10", "perfutil.component:component_post_render:tree-cleanup-own-references-only", cm_.loc(c), not foreign,
+               f"`{short(c)}` releases ids taken from this render tree's own bookkeeping" if not foreign else
+               f"`{short(c)}` releases ids taken from the process-global `{foreign[0]}`: a root render that finishes while ANOTHER tree is still pending (a lazy object printed with {{{{ badge }}}} that renders a component, or another thread) releases that tree's references too; the provider's data is deleted and a later inject() there raises KeyError")
+
 
 def s9(chk: Check, proj: Project, w) -> None:
     chk.rule("S9", "inject() inside DEFERRED hooks: the metadata that on_render_before / on_render_after run under does not carry the live context of the tag (which has left the {% provide %} scope by then) but a snapshot")
